@@ -32,15 +32,16 @@ def _const(t):
     return t[1] if t[0] == "const" else None
 
 
-def _ladder(run, name, tickterm):
+def _ladder(run, name, tickterm, facts=None, tm=TM, R1="R1", tag=""):
     """Extract [(mask, literal)] from a ladder function; checks the shape. Returns (init_odd, init_even, steps, final_shift) or None."""
-    facts = run.facts
-    fn = facts.need_fn(TM + name)
+    facts = facts or run.facts
+    fn = facts.need_fn(tm + name)
+    name = tag + name
     run.touch(fn)
     pv = Prov(fn, cut="all")
     ratio = pv.var_by_name("ratio")
     if ratio is None:
-        run.missing("R1", "ladder-var@" + name, "no running `ratio` variable in " + name)
+        run.missing(R1, "ladder-var@" + name, "no running `ratio` variable in " + name)
         return None
     ats = A.atoms(fn, cut="all")
     masks = []
@@ -48,10 +49,10 @@ def _ladder(run, name, tickterm):
         c = at.cond()
         ok = c and c[0] == "Ne" and const_val(c[2]) == 0 and strip(c[1])[0] == "bin" and strip(c[1])[1] == "BitAnd" and tickterm(pv, strip(c[1])[2])
         if not ok:
-            run.bad("R1", "ladder-atoms@" + name, "%s branches on %s; a ladder may only test `tick & 2^k != 0`" % (name, at.describe()[:120]), loc=fn.loc(at.line))
+            run.bad(R1, "ladder-atoms@" + name, "%s branches on %s; a ladder may only test `tick & 2^k != 0`" % (name, at.describe()[:120]), loc=fn.loc(at.line))
             return None
         masks.append((_const(strip(c[1])[3]), at))
-    run.check("R1", "masks@" + name, [m for m, _ in masks] == [1 << k for k in range(NBITS)], "%s tests masks %s; expected exactly 2^0..2^%d once each in order" % (name, [m for m, _ in masks], NBITS - 1),
+    run.check(R1, "masks@" + name, [m for m, _ in masks] == [1 << k for k in range(NBITS)], "%s tests masks %s; expected exactly 2^0..2^%d once each in order" % (name, [m for m, _ in masks], NBITS - 1),
               loc=fn.loc(), detail="masks 2^0..2^18, once each")
     defs = pv.var_defs(ratio)
     by_block = {}
@@ -90,13 +91,13 @@ def _ladder(run, name, tickterm):
                         lit = _const(mu[3])
         if lit is None:
             ok_all = False
-            run.bad("R1", "rung@%s/%d" % (name, mask), "mask %d of %s does not guard exactly one `ratio = step(ratio, literal)`: true side %s, false side %s" %
+            run.bad(R1, "rung@%s/%d" % (name, mask), "mask %d of %s does not guard exactly one `ratio = step(ratio, literal)`: true side %s, false side %s" %
                     (mask, name, [sh(t, 60) for _, t in td], [sh(t, 60) for _, t in fd]), loc=fn.loc(at.line))
         else:
-            run.ok("R1", "rung@%s/%d" % (name, mask), detail="bit %d => ratio := step(ratio, %d)" % (mask.bit_length() - 1, lit))
+            run.ok(R1, "rung@%s/%d" % (name, mask), detail="bit %d => ratio := step(ratio, %d)" % (mask.bit_length() - 1, lit))
             steps.append((mask, lit))
     stray = [b for b in by_block if b not in used]
-    run.check("R1", "no-stray-updates@" + name, not stray and ok_all, "%s assigns `ratio` outside the 19 rungs (blocks %s)" % (name, stray), loc=fn.loc(), detail="%d definitions of ratio, all inside rungs" % len(defs))
+    run.check(R1, "no-stray-updates@" + name, not stray and ok_all, "%s assigns `ratio` outside the 19 rungs (blocks %s)" % (name, stray), loc=fn.loc(), detail="%d definitions of ratio, all inside rungs" % len(defs))
     rets = []
     for bi, bb in enumerate(fn.blocks):
         if bb["t"]["k"] == "ret":
@@ -109,7 +110,7 @@ def _ladder(run, name, tickterm):
         elif r[0] == "bin" and r[1] == "Shr" and strip(r[2]) == ("var", "ratio", ratio):
             shift = _const(r[3])
     want = 32 if name.endswith("positive_tick") else 0
-    run.check("R1", "final-shift@" + name, shift == want, "%s returns %s; expected ratio >> %d" % (name, [sh(r, 60) for r in rets], want), loc=fn.loc(), detail="returns ratio >> %d" % want)
+    run.check(R1, "final-shift@" + name, shift == want, "%s returns %s; expected ratio >> %d" % (name, [sh(r, 60) for r in rets], want), loc=fn.loc(), detail="returns ratio >> %d" % want)
     if not ok_all or len(steps) != NBITS - 1 or not init or shift != want:
         return None
     return init, steps, shift
@@ -233,7 +234,14 @@ def R3_inverse(run):
     run.check("R3", "upper-margin", u >= need * (1 - Decimal(2) ** -10), "upper margin %.5f tick is below the %d-bit truncation error %.5f tick: a boundary price whose log2 is underestimated by the full error maps to the tick below" % (u, p, need),
               detail="%.5f >= %.5f" % (u, need))
     run.check("R3", "lower-margin", l >= 0 and u + l < 1, "margins (%.5f, %.5f) must be non-negative and sum below one tick so that the true tick is one of two adjacent candidates" % (l, u), detail="0 <= %.5f; sum %.5f < 1" % (l, u + l))
-    fn = facts.need_fn(TM + "tick_index_from_sqrt_price")
+    check_inverse(run, facts, TM, "tick_index_from_sqrt_price", "sqrt_price_from_tick_index", ("sqrt_price_x64", "sqrt_price_x64"))
+
+
+def check_inverse(run, facts, tm, fnname, price_fn, params, rule="R3", tag=""):
+    """Shape of the inverse: loop bound, base change, candidates, final choice. `params` = accepted names of the input price."""
+    cv = facts.const_value
+    k, p, lo, up = cv(tm + "LOG_B_2_X32"), cv(tm + "BIT_PRECISION"), cv(tm + "LOG_B_P_ERR_MARGIN_LOWER_X64"), cv(tm + "LOG_B_P_ERR_MARGIN_UPPER_X64")
+    fn = facts.need_fn(tm + fnname)
     run.touch(fn)
     pv = Prov(fn, cut="all")
     ats = A.atoms(fn, cut="all")
@@ -244,7 +252,7 @@ def R3_inverse(run):
             t = strip(t[1])
         return t[0] == "var" and t[1] == name
     loop = [at for at in ats if at.cond() and at.cond()[0] == "Lt" and var_is(at.cond()[1], "precision") and const_val(at.cond()[2]) == p]
-    run.check("R3", "precision-loop", len(loop) == 1, "the log2 loop is not bounded by `precision < BIT_PRECISION`", loc=fn.loc(), detail="while bit > 0 && precision < %s" % p)
+    run.check(rule, tag + "precision-loop", len(loop) == 1, "the log2 loop is not bounded by `precision < BIT_PRECISION`", loc=fn.loc(), detail="while bit > 0 && precision < %s" % p)
     eq = [at for at in ats if at.cond() and at.cond()[0] in ("Eq", "Ne") and {strip(at.cond()[1])[1:2], strip(at.cond()[2])[1:2]} == {("tick_low",), ("tick_high",)}]
     def expand(t):
         t = strip(t)
@@ -255,7 +263,7 @@ def R3_inverse(run):
         return t
 
     def is_price_call(t):
-        return is_call(expand(t), "sqrt_price_from_tick_index")
+        return is_call(expand(t), price_fn)
     le = [at for at in ats if at.cond() and at.cond()[0] in ("Le", "Ge") and (is_price_call(at.cond()[1]) or is_price_call(at.cond()[2]))]
     ok = len(eq) == 1 and len(le) == 1
     if ok:
@@ -263,7 +271,7 @@ def R3_inverse(run):
         lhs_price = is_price_call(c[1])
         op, a, b = (c[0], c[1], c[2]) if lhs_price else (A.SWAP[c[0]], c[2], c[1])
         a = expand(a)
-        ok = op == "Le" and is_call(a, "sqrt_price_from_tick_index") and var_is(a[2][0], "tick_high") and is_param(b, "sqrt_price_x64")
+        ok = op == "Le" and is_call(a, price_fn) and var_is(a[2][0], "tick_high") and (is_param(b, params[0]) or var_is(b, params[1]) or is_param(b, params[1]))
 
         def ret_under(assumptions):
             from analysis.prov import prov_assuming
@@ -284,9 +292,9 @@ def R3_inverse(run):
             r_lo = ret_under([(e, not same), (le[0], not le_true)])
             ok = r_eq == {"tick_low"} and r_hi == {"tick_high"} and r_lo == {"tick_low"}
             if not ok:
-                run.bad("R3", "final-choice", "returns: equal => %s, price(tick_high) <= input => %s, otherwise => %s; expected tick_low / tick_high / tick_low" % (sorted(r_eq), sorted(r_hi), sorted(r_lo)), loc=fn.loc())
+                run.bad(rule, tag + "final-choice", "returns: equal => %s, price(tick_high) <= input => %s, otherwise => %s; expected tick_low / tick_high / tick_low" % (sorted(r_eq), sorted(r_hi), sorted(r_lo)), loc=fn.loc())
                 return
-    run.check("R3", "final-choice", ok, "the final selection is not `if tick_low == tick_high {tick_low} else if price(tick_high) <= input {tick_high} else {tick_low}`", loc=fn.loc(),
+    run.check(rule, tag + "final-choice", ok, "the final selection is not `if tick_low == tick_high {tick_low} else if price(tick_high) <= input {tick_high} else {tick_low}`", loc=fn.loc(),
               detail="one exact comparison against price(tick_high)")
     tl = pv.var_by_name("tick_low")
     th = pv.var_by_name("tick_high")
@@ -302,14 +310,14 @@ def R3_inverse(run):
             inner = strip(sub[0][2])
             return inner[0] == "bin" and inner[1].startswith(op) and var_is(inner[2], "logbp_x64") and _const(inner[3]) == margin
         ok = shape(tl, "Sub", lo) and shape(th, "Add", up)
-    run.check("R3", "candidates", ok, "tick_low / tick_high are not (logbp - LOWER) >> 64 and (logbp + UPPER) >> 64", loc=fn.loc(), detail="tick_low := (log - L) >> 64; tick_high := (log + U) >> 64")
+    run.check(rule, tag + "candidates", ok, "tick_low / tick_high are not (logbp - LOWER) >> 64 and (logbp + UPPER) >> 64", loc=fn.loc(), detail="tick_low := (log - L) >> 64; tick_high := (log + U) >> 64")
     lb = pv.var_by_name("logbp_x64")
     ok = lb is not None
     if ok:
         ds = pv.var_defs(lb)
         t = strip(ds[0][2]) if len(ds) == 1 else ("x",)
         ok = t[0] == "bin" and t[1].startswith("Mul") and var_is(t[2], "log2p_x32") and _const(t[3]) == k
-    run.check("R3", "base-change", ok, "logbp_x64 is not log2p_x32 * LOG_B_2_X32", loc=fn.loc(), detail="log_b(p) := log2(p) * LOG_B_2_X32")
+    run.check(rule, tag + "base-change", ok, "logbp_x64 is not log2p_x32 * LOG_B_2_X32", loc=fn.loc(), detail="log_b(p) := log2(p) * LOG_B_2_X32")
 
 
 RULES = [R1_R2_ladders, R3_inverse]
